@@ -142,3 +142,9 @@ From HV.Proofs Require BackendsOk.
 Theorem backends_of_this_run_ok : forall W, 0 < W -> forall be, env_ok (Backends.env_of W be).
 Proof. exact BackendsOk.env_of_ok. Qed.
 Print Assumptions backends_of_this_run_ok.
+(* ... and the scanner loop shells and SWAR helpers translated on this run are the ones `Backends.env_of` is built from *)
+From HV.Proofs Require TieLoops TieSwarFns.
+Theorem loop_shells_of_this_run : TieLoops.loop_shells_tied.
+Proof. exact TieLoops.loop_shells_tied_pf. Qed.
+Print Assumptions loop_shells_of_this_run.
+
